@@ -379,3 +379,8 @@ def check_ready_earned(b, ready_block, facts, res):
     must_pass("changes", "object of the predecessor is readable and valid",
               lambda l: valid_rev(l, "2") or (l.kind == "variant" and l.variants == {"None"} and
                                               [x for x in walk(l.term) if x[0] == "field" and x[2] == "2"] != [] and elem_of(l.term, "changes")))
+
+
+def thorough(res):
+    from .. import engine
+    engine.sensitivity("C02", res)
